@@ -12,6 +12,10 @@ R18c unit alphabet: every character of every unit in the literal QUANTITY_UNIT_M
      character class of Grammar.unit_re (otherwise 'tag operator value unit' loses its unit).
 R18d the right-hand side patterns are anchored (^...$) and the float group accepts a superset of the
      threshold number syntax.
+R18e number syntax: the language of the float group contains every decimal literal float() converts - optional sign, digits
+     with optional fraction or a leading-dot fraction, optional exponent (the recovered value is converted with float()).
+R18f the two right-hand-side alternatives (value unit / value) are disjoint: the with-unit pattern is tried first, so a unit-less
+     value that it also matches is split into a shorter value and a unit that was never written.
 Decides grammar-level facts for all lines; recovery of concrete tag names/values is value-level.
 """
 from __future__ import annotations
@@ -274,3 +278,49 @@ def run(ctx) -> None:
         else:
             ctx.fail("R18d", None, gram.node, inst, f"{v!r} is not anchored: trailing text would be dropped silently",
                      function=gram.qualname, file=gram.module.relpath)
+
+    # ---- R18e: the number syntax of the right-hand side
+    ctx.rule("R18e", "every decimal literal float() converts is recognised as the value")
+    import re as _re
+    from ..regexlang import difference, accepts_some
+    fl = fold_str(prog, gram, gram.class_attrs["float_re"])
+    strip_names = lambda pat: _re.sub(r"\(\?P<\w+>", "(", pat)
+    REF = r"[+-]?(\d+(\.\d*)?|\.\d+)([eE][+-]?\d+)?"      # decimal literals accepted by float() (no inf/nan/underscores)
+    alpha = ["5", ".", "+", "-", "e", "E", " ", "m", "2", "%", "x"]
+    w = difference(REF, strip_names(fl), alpha, only="1-2")
+    inst = "Grammar.float_re accepts every decimal literal that float() converts (sign, fraction, exponent)"
+    if w is None:
+        ctx.ok("R18e", inst, {"rule": "R18e", "float_re": fl})
+    else:
+        ctx.fail("R18e", None, gram.node, inst, f"the value {w[0]!r} is a number to float() but not to the right-hand-side patterns: "
+                 f"'tag operator {w[0]} unit' is not split into value and unit (no numeric value, no unit, no error)",
+                 function=gram.qualname, file=gram.module.relpath)
+    # ---- R18f: the two right-hand-side alternatives do not overlap (the with-unit pattern is tried first)
+    ctx.rule("R18f", "a value without a unit cannot also be read as a shorter value with a unit")
+    with_unit = strip_names(fold_str(prog, gram, gram.class_attrs["condition_rhs_re"]))
+    no_unit = strip_names(fold_str(prog, gram, gram.class_attrs["condition_rhs_no_unit_re"]))
+    body = lambda pat: pat[1:-1] if pat.startswith("^") and pat.endswith("$") else pat
+    amb = accepts_some(body(no_unit), alpha, lambda word: _re.fullmatch(body(with_unit), word) is not None)
+    # is the with-unit pattern applied only after the unit-less one has failed?
+    from ..util import cfg_of
+    from ..cfg import facts_at
+    gp = cfg_of(ptov)
+
+    def uses(n_, attr):
+        return n_.ast is not None and any(isinstance(x, ast.Attribute) and x.attr == attr for x in n_.walk())
+    wn = [n_ for n_ in gp.nodes if n_.kind in ("stmt", "test") and uses(n_, "condition_rhs_pattern")]
+    if not wn:
+        raise AnchorError("_parse_tag_operator_value: application of Grammar.condition_rhs_pattern not found")
+    guarded = all(any("condition_rhs_no_unit_pattern" in a_ and (a_.replace(" ", "").endswith("isNone") == pol_ or
+                                                                  (a_.startswith("not ") and pol_))
+                      for a_, pol_ in facts_at(gp, n_)) for n_ in wn)
+    first_is_with_unit = not guarded
+    inst = "Grammar.condition_rhs_re / condition_rhs_no_unit_re: no unit-less value is also a (shorter value, unit) pair"
+    if amb is None or not first_is_with_unit:
+        ctx.ok("R18f", inst)
+    else:
+        m_ = _re.fullmatch(fold_str(prog, gram, gram.class_attrs["condition_rhs_re"])[1:-1], amb)
+        ctx.fail("R18f", None, gram.node, inst, f"the unit-less value {amb!r} also matches the with-unit pattern, which is tried first, as value "
+                 f"{m_.group('float')!r} and unit {m_.group('unit')!r} (the exponent letters and digits belong to the unit alphabet): "
+                 f"'Watch: X > {amb}' recovers the wrong value and a unit that was not written",
+                 function=gram.qualname, file=gram.module.relpath)
